@@ -162,6 +162,19 @@ func (c *exprCtx) expr(v ssa.Value) string {
 	case *ssa.Lookup:
 		return c.expr(x.X) + "[" + c.expr(x.Index) + "]"
 	case *ssa.Slice:
+		if al, ok := x.X.(*ssa.Alloc); ok && x.Low == nil && x.High == nil && (al.Comment == "varargs" || al.Comment == "slicelit") {
+			if els := variadicArgs(x); els != nil {
+				var parts []string
+				for _, e := range els {
+					if e == nil {
+						parts = append(parts, "_")
+					} else {
+						parts = append(parts, c.expr(e))
+					}
+				}
+				return "[" + strings.Join(parts, ", ") + "]"
+			}
+		}
 		lo, hi := "", ""
 		if x.Low != nil {
 			lo = c.expr(x.Low)
